@@ -567,18 +567,20 @@ class Channel(ClosingContextManager):
 
         .. versionadded:: 1.1
         """
-        data = bytes()
         self.lock.acquire()
         try:
             old = self.combine_stderr
             self.combine_stderr = combine
             if combine and not old:
-                # copy old stderr buffer into primary buffer
+                # copy old stderr buffer into primary buffer; this happens
+                # under the lock (see _feed_extended) so that stderr data
+                # arriving meanwhile can neither overtake the old data nor be
+                # left behind in the stderr buffer
                 data = self.in_stderr_buffer.empty()
+                if len(data) > 0:
+                    self._feed(data)
         finally:
             self.lock.release()
-        if len(data) > 0:
-            self._feed(data)
         return old
 
     # ...socket API...
@@ -1069,10 +1071,16 @@ class Channel(ClosingContextManager):
                 m.add_int(ack)
                 self.transport._send_user_message(m)
             return
-        if self.combine_stderr:
-            self._feed(s)
-        else:
-            self.in_stderr_buffer.feed(s)
+        # test the flag and store the data in one step with respect to
+        # set_combine_stderr
+        self.lock.acquire()
+        try:
+            if self.combine_stderr:
+                self._feed(s)
+            else:
+                self.in_stderr_buffer.feed(s)
+        finally:
+            self.lock.release()
 
     def _window_adjust(self, m):
         nbytes = m.get_int()
